@@ -39,3 +39,31 @@ Example C09_flipped_orientation_refuted :
   t_score_cur (eval2current (mkTrk None SNInf (Some [0]) (SFin 5) None SNInf [] 0 0) (Some [1]) (SFin 3)) = SFin 5 /\
   t_score_cur (eval2current (mkTrk None SNInf (Some [0]) (SFin 5) None SNInf [] 0 0) (Some [1]) (SFin 7)) = SFin 7.
 Proof. vm_compute. split; reflexivity. Qed.
+
+Require Import PyPrims PyPrimsQ ShcGen ShcTie.
+From RecordUpdate Require Import RecordSet.
+Import RecordSetNotations.
+(* ---------- StochasticHillClimbingOptimizer.evaluate / SimulatedAnnealingOptimizer.evaluate GENERATED from /repo's source
+   (generated/ShcGen.v; proofs/ShcTie.v) ---------- *)
+(* the source's evaluate IS the stochastic branch of the model's algo_evaluate (acceptance of worse moves under track_new_score, greedy
+   best-of-neighbours otherwise), for every tracker state, tape and score *)
+Theorem C09_source_stochastic_evaluate_refines : forall (c : algo_cfg) (st : algo_state) (s : score) n1 n2,
+  a_kind c = KStochastic \/ a_kind c = KAnnealing ->
+  match g_SHC_evaluate (shc_of c st n1 n2) s with
+  | Ok g' => algo_evaluate c st s = Ok (st <| h_trk := sh_trk g' |> <| h_tape := sh_tape g' |>) /\ sh_nn g' = a_nn c
+  | Err e => algo_evaluate c st s = Err e
+  end.
+Proof. exact shc_evaluate_tie. Qed.
+Print Assumptions C09_source_stochastic_evaluate_refines.
+
+(* direction of the stochastic step, for the generated code: a score that is not better moves `current` exactly when the oracle acceptance
+   probability beats the uniform draw (accept), one considered transition is counted, an executed one when it happens *)
+Theorem C09_source_transition_spec : forall (g : g_shc) (s : score) d um ue t2 p,
+  sh_tape g = d :: DF um ue :: t2 -> xreal_of_draw d = Ok p -> sle s (t_score_cur (sh_trk g)) = true ->
+  g_SHC_evaluate g s =
+  Ok (g <| sh_trk := (if accept p um ue then new2current (set_score_new (sh_trk g) s) else set_score_new (sh_trk g) s) <| t_nth_trial ::= Z.succ |> |>
+        <| sh_tape := t2 |>
+        <| sh_n_considered_transitions := sh_n_considered_transitions g + 1 |>
+        <| sh_n_transitions := (if accept p um ue then sh_n_transitions g + 1 else sh_n_transitions g) |>).
+Proof. exact source_transition_spec. Qed.
+Print Assumptions C09_source_transition_spec.
